@@ -306,7 +306,13 @@ func (s *Service) housekeepAttestedMap(_ context.Context,
 	epoch := s.chainTime.SlotToEpoch(duty.Slot())
 	if epoch > 1 {
 		s.attestedMu.Lock()
-		delete(s.attested, epoch-2)
+		// Remove every epoch before the previous one, not only epoch-2, which would stay for ever
+		// if no attestation succeeded during this epoch.
+		for attestedEpoch := range s.attested {
+			if attestedEpoch < epoch-1 {
+				delete(s.attested, attestedEpoch)
+			}
+		}
 		s.attestedMu.Unlock()
 	}
 }
